@@ -575,8 +575,14 @@ func (s *gridScreen) setCursorPos(x, y int) {
 
 func (s *gridScreen) setScrollMarginTopBottom(top, bottom int) {
 	debugPrintln(debugScroll, "scroll margins:", top, bottom)
-	s.topMargin = clamp(top, 0, s.size.Y-1)
-	s.bottomMargin = clamp(bottom, 0, s.size.Y-1)
+	top = clamp(top, 0, s.size.Y-1)
+	bottom = clamp(bottom, 0, s.size.Y-1)
+	if top > bottom {
+		// a region whose top lies below its bottom is ignored
+		return
+	}
+	s.topMargin = top
+	s.bottomMargin = bottom
 }
 
 func (s *gridScreen) scroll(y1 int, y2 int, dy int) {
